@@ -81,7 +81,10 @@ cls("hypercorn.trio.task_group:TaskGroup", fields={"_nursery": "opt obj trio:Nur
 for TG in ("hypercorn.asyncio.task_group:TaskGroup", "hypercorn.trio.task_group:TaskGroup"):
     fn(TG + ".spawn_app", params=SPAWN_PARAMS, effect="atomic", returns=None,
        requires=[("spawn_app.pre.entered", "True" if "asyncio" in TG else "self._nursery is not None")],
-       ensures=[("C16.spawn_app.one-task", "n_emitted('spawned') == 1", "C16,C01")] +
+       ensures=[("C16.spawn_app.one-task", "n_emitted('spawned') == 1", "C16,C01"),
+                # C08 / C16: the queue between the connection and the application holds at most
+                # max_app_queue_size messages on both workers (the reader is held back when it is full)
+                ("C16.spawn_app.bounded-queue", "n_emitted('queues') == 1 and emitted('queues')[0][1] == config.max_app_queue_size", "C16,C08")] +
                ([("C17.call_soon.waits", "bridge_waits(local('_call_soon'))", "C17,C16")] if "asyncio" in TG else []),
        props=("C16", "C01"))
 
